@@ -142,7 +142,21 @@ pub fn check_bytes(ctx: &mut Ctx, bytes: &[u8]) -> Result<(), Fail> {
             return Ok(());
         }
         (Ok(_), None) => return Err(("parsed-without-header".into(), "parse_indexed_from_slice accepted bytes without a complete header + magic".into())),
-        (Err(e), Some(_)) => return Err(("header-rejected".into(), format!("parse_indexed_from_slice rejected a complete header with the right magic: {e}"))),
+        (Err(e), Some(w)) => {
+            // The statement ties *recognition* to header + magic; parsing must succeed for every
+            // well-formed bundle, and for every other byte string "parsing and every later access
+            // return an error" - so a parser that already refuses an ill-formed bundle up front is
+            // within it. Ill-formed = the reference finds the startup code or some table entry
+            // unreadable.
+            let ill_formed = w.startup.is_err()
+                || (0..w.module_count.min(1 << 16)).any(|id| matches!(ref_module(&buf, id), RefModule::Error { .. }))
+                || w.module_count > (1 << 16);
+            if ill_formed {
+                ctx.bucket("refused-at-parse:ill-formed-bundle-with-complete-header");
+                return Ok(());
+            }
+            return Err(("header-rejected".into(), format!("parse_indexed_from_slice rejected a well-formed bundle (complete header, right magic, startup code and every table entry readable): {e}")));
+        }
         (Ok(b), Some(_)) => b,
     };
     let want = want.unwrap();
